@@ -14,10 +14,12 @@ open KB
 missing key is a failed condition (C11). Everything else in `Quirks` is left open. -/
 def Contractual (q : Quirks) : Prop := q.casMissingNotFound = false
 
-/-- Two configurations that differ only in the engine's open choices. -/
+/-- Two configurations that differ only in the engine's open choices (`creatorTombAboveIsCf` is not one of them: it
+selects the creator of before /repo 42e5238, for refutations). -/
 def SameButEngine (c1 c2 : Cfg) : Prop :=
   c1.pfx = c2.pfx ∧ c1.skipped = c2.skipped ∧ c1.cacheSize = c2.cacheSize ∧ c1.splits = c2.splits ∧
-  c1.etcdCompat = c2.etcdCompat ∧ c1.ttl = c2.ttl ∧ c1.q.supportTTL = c2.q.supportTTL
+  c1.etcdCompat = c2.etcdCompat ∧ c1.ttl = c2.ttl ∧ c1.q.supportTTL = c2.q.supportTTL ∧
+  c1.creatorTombAboveIsCf = c2.creatorTombAboveIsCf
 
 /-- A well-formed backend store: encoded records of keys over the alphabet (sorted), whose index
 records parse. -/
@@ -32,17 +34,17 @@ theorem get_indep (c1 c2 : Cfg) (s : BState) (hwf : StoreWF s.store)
 theorem create_indep (c1 c2 : Cfg) (h : SameButEngine c1 c2) (h1 : Contractual c1.q) (h2 : Contractual c2.q)
     (s : BState) (hwf : StoreWF s.store) (hd : s.dealt + 1 < 2 ^ 64)
     (k v : Bytes) (hk : Alphabet k) (fs : List Fault) : doCreate c1 s k v fs = doCreate c2 s k v fs := by
-  -- holds on every store, for every key: `h`, `hwf`, `hd`, `hk` are not needed
-  have _ := h; have _ := hwf; have _ := hd; have _ := hk
-  exact doCreate_indep h1 h2 s k v fs
+  -- holds on every store, for every key: `hwf`, `hd`, `hk` are not needed
+  have _ := hwf; have _ := hd; have _ := hk
+  exact doCreate_indep h1 h2 h.2.2.2.2.2.2.2 s k v fs
 
 theorem update_indep (c1 c2 : Cfg) (h : SameButEngine c1 c2) (h1 : Contractual c1.q) (h2 : Contractual c2.q)
     (s : BState) (hwf : StoreWF s.store) (hd : s.dealt + 1 < 2 ^ 64)
     (k v : Bytes) (hk : Alphabet k) (e : Nat) (fs : List Fault) :
     doUpdate c1 s k v e fs = doUpdate c2 s k v e fs := by
-  have _ := h; have _ := hd
+  have _ := hd
   obtain ⟨recs, hst, hs, hr⟩ := hwf
-  refine doUpdate_indep h1 h2 s k v ?_ e fs
+  refine doUpdate_indep h1 h2 h.2.2.2.2.2.2.2 s k v ?_ e fs
   rw [hst]
   exact bget_encodeStore_indep c1 c2 hs hr k hk 0 (by decide)
 
@@ -73,7 +75,7 @@ theorem list_indep (c1 c2 : Cfg) (h : SameButEngine c1 c2)
      | .error e1, .error e2 => e1 = e2
      | .panic, .panic => True
      | _, _ => False) := by
-  obtain ⟨hp, _, _, hs, _, _, ht⟩ := h
+  obtain ⟨hp, _, _, hs, _, _, ht, _⟩ := h
   rw [doList_indep_of_rev hp hs ht (by rw [hr1, hr2]) s a b R n]
   exact listRes_match_self _
 
@@ -101,7 +103,7 @@ theorem former_counterexample_was_descending :
     cmp (encodeBoundOldest [50]) (encodeBoundOldest [50, 1]) = .gt ∧
     iterate cexUnchecked.q cexState.store (encodeBoundOld [50]) (encodeBoundOld [50, 1]) 0 = [(encode [40] 5, [1])] ∧
     iterate cexChecked.q cexState.store (encodeBoundOld [50]) (encodeBoundOld [50, 1]) 0 = [] := by
-  refine ⟨⟨rfl, rfl, rfl, rfl, rfl, rfl, rfl⟩, rfl, rfl, ?_, by decide, by decide, by decide, by decide, by decide⟩
+  refine ⟨⟨rfl, rfl, rfl, rfl, rfl, rfl, rfl, rfl⟩, rfl, rfl, ?_, by decide, by decide, by decide, by decide, by decide⟩
   exact ⟨[{ key := [40], rev := 5, val := [1], ik := encode [40] 5 }], rfl, by decide, by decide⟩
 
 /-- ... REPAIRED (/repo 23c8b93): the bound `"2\x01"` is encoded just after every version of `"2"`, the scan
@@ -126,7 +128,7 @@ theorem list_indep_corrected (c1 c2 : Cfg) (h : SameButEngine c1 c2)
      | .error e1, .error e2 => e1 = e2
      | .panic, .panic => True
      | _, _ => False) := by
-  obtain ⟨hp, _, _, hs, _, _, ht⟩ := h
+  obtain ⟨hp, _, _, hs, _, _, ht, _⟩ := h
   rw [doList_indep_of_rev hp hs ht hrev s a b R n]
   exact listRes_match_self _
 
@@ -139,7 +141,7 @@ theorem list_indep_alphabet (c1 c2 : Cfg) (h : SameButEngine c1 c2) (hsplit : c1
      | .error e1, .error e2 => e1 = e2
      | .panic, .panic => True
      | _, _ => False) := by
-  obtain ⟨hp, _, _, hs, _, _, ht⟩ := h
+  obtain ⟨hp, _, _, hs, _, _, ht, _⟩ := h
   rw [doList_indep_single hp hs ht hsplit s ha hb R n]
   exact listRes_match_self _
 
@@ -152,7 +154,7 @@ theorem list_indep_any_bounds (c1 c2 : Cfg) (h : SameButEngine c1 c2) (hsplit : 
      | .error e1, .error e2 => e1 = e2
      | .panic, .panic => True
      | _, _ => False) := by
-  obtain ⟨hp, _, _, hs, _, _, ht⟩ := h
+  obtain ⟨hp, _, _, hs, _, _, ht, _⟩ := h
   rw [doList_indep_single' hp hs ht hsplit s a b R n]
   exact listRes_match_self _
 
@@ -166,7 +168,7 @@ theorem list_indep_ascending_any_bounds (c1 c2 : Cfg) (h : SameButEngine c1 c2)
      | .error e1, .error e2 => e1 = e2
      | .panic, .panic => True
      | _, _ => False) := by
-  obtain ⟨hp, _, _, hs, _, _, ht⟩ := h
+  obtain ⟨hp, _, _, hs, _, _, ht, _⟩ := h
   rw [doList_indep_of_ascending' hp hs ht s a b hasc R n]
   exact listRes_match_self _
 
@@ -181,7 +183,7 @@ theorem list_indep_ascending (c1 c2 : Cfg) (h : SameButEngine c1 c2)
      | .error e1, .error e2 => e1 = e2
      | .panic, .panic => True
      | _, _ => False) := by
-  obtain ⟨hp, _, _, hs, _, _, ht⟩ := h
+  obtain ⟨hp, _, _, hs, _, _, ht, _⟩ := h
   rw [doList_indep_of_ascending hp hs ht s ha hb hasc R n]
   exact listRes_match_self _
 
@@ -196,7 +198,7 @@ theorem noncontractual_differs :
 
 /-! Non-vacuity of the implications added with /repo 23c8b93: two configurations that differ in the engine only, on
 a single partition (every adjusted partition of which ascends), bounds with a low byte. -/
-example : SameButEngine cexUnchecked cexChecked ∧ cexUnchecked.splits = [] ∧ cmp [50] [50, 1] = .lt := ⟨⟨rfl, rfl, rfl, rfl, rfl, rfl, rfl⟩, rfl, by decide⟩
+example : SameButEngine cexUnchecked cexChecked ∧ cexUnchecked.splits = [] ∧ cmp [50] [50, 1] = .lt := ⟨⟨rfl, rfl, rfl, rfl, rfl, rfl, rfl, rfl⟩, rfl, by decide⟩
 example : ∀ parts, scanPartitions cexUnchecked (encodeBound [50]) (encodeBound [50, 1]) = some parts →
     ∀ p ∈ parts, cmp p.1 p.2 ≠ .gt := by decide
 
